@@ -41,10 +41,7 @@ func (m *MemTable) Put(key, value []byte, seqNum uint64) {
 	m.skipList.Insert(e)
 
 	// Update maximum sequence number
-	nextSeqNum := m.nextSeqNum.Load()
-	if seqNum > nextSeqNum {
-		m.nextSeqNum.Store(seqNum + 1)
-	}
+	m.advanceNextSeqNum(seqNum)
 }
 
 // Delete marks a key as deleted in the MemTable
@@ -61,9 +58,21 @@ func (m *MemTable) Delete(key []byte, seqNum uint64) {
 	m.skipList.Insert(e)
 
 	// Update maximum sequence number
-	nextSeqNum := m.nextSeqNum.Load()
-	if seqNum > nextSeqNum {
-		m.nextSeqNum.Store(seqNum + 1)
+	m.advanceNextSeqNum(seqNum)
+}
+
+// advanceNextSeqNum keeps nextSeqNum above every sequence number stored in
+// the table. It saturates instead of wrapping to 0 at the largest number:
+// iterators of a mutable table use nextSeqNum as their snapshot bound and
+// treat 0 as "no bound", so a wrapped value would hide existing entries.
+// Must be called with m.mu held.
+func (m *MemTable) advanceNextSeqNum(seqNum uint64) {
+	if seqNum > m.nextSeqNum.Load() {
+		next := seqNum + 1
+		if next == 0 {
+			next = seqNum
+		}
+		m.nextSeqNum.Store(next)
 	}
 }
 
